@@ -3357,6 +3357,11 @@ void Analyser::analyseModel(const ModelPtr &model)
 
     pFunc()->removeAllIssues();
 
+    // Start from a new analyser model, so that the one returned by a previous
+    // call is left untouched and is not handed out again for another model.
+
+    pFunc()->mModel = AnalyserModel::AnalyserModelImpl::create(model);
+
     if (model == nullptr) {
         auto issue = Issue::IssueImpl::create();
 
